@@ -9,27 +9,27 @@ WHY = {
     ("check::ValidGrammar::from_grammar", "skip", "shell.is_some()"): "duplicate-definition check concerns plain definitions; shell-specific ones are checked per shell in get_specializations",
     ("check::ValidGrammar::from_grammar", "retain", "make_builtin_specializations"): "a plain definition of PATH/DIRECTORY overrides the builtin (C11): not a validation skip",
     ("check::ValidGrammar::from_grammar", "skip", ".used"): "unused-specialization warning set = specializations never marked used (C15)",
-    ("check::do_check_subword_spaces", "return-ok", "param#2.get("): "a reference to a nonterminal without a plain definition has nothing to descend into (undefined / specialised / builtin: a single word)",
+    ("check::do_check_subword_spaces", "return-ok", ".get("): "a reference to a nonterminal without a plain definition has nothing to descend into (undefined / specialised / builtin: a single word)",
     ("check::get_nonterminals_resolution_order", "return-ok", "is_empty()"): "no plain definitions at all: nothing can be cyclic and nothing needs expanding",
     ("check::get_nonterminals_resolution_order", "retain", "contains_key"): "edges only to nonterminals that have a plain definition (others are leaves)",
     ("check::get_nonterminals_resolution_order", "skip", ".contains(elem"): "second seeding loop: vertices already visited by an earlier DFS are complete",
     ("check::get_nonterminals_resolution_order", "retain", "unwrap_or(True)"): "definitions without references need no expansion; dropping them from the order changes nothing",
     ("check::get_not_depended_on_nonterminals", "skip", "!= '0'"): "roots = vertices with in-degree 0",
-    ("check::traverse_nonterminal_dependencies_dfs", "skip", "param#3.contains"): "vertex finished earlier: tested AFTER the on-current-path test, so a back edge is still an error",
+    ("check::traverse_nonterminal_dependencies_dfs", "skip", ".contains(elem[param<UstrMap>"): "vertex finished earlier: tested AFTER the on-current-path test, so a back edge is still an error",
     ("dfa::DFA::do_check_ambiguity_best_effort", "dedup_by_key", ""): "identical (literal, description) pairs are one expectation",
     ("dfa::DFA::do_check_ambiguity_best_effort", "skip", ".0 != "): "neighbours in literal order: different literals cannot conflict",
     ("dfa::DFA::do_check_ambiguity_best_effort", "skip", ".1 == "): "same literal, same description (None == None included): no conflict",
     ("parse::Grammar::get_specializations", "continue^0", ":Some(("): "first pass looks at shell-specific definitions only",
-    ("parse::Grammar::get_specializations", "skip", "!= param#1"): "definitions for other shells do not take part (their shell name and right-hand side were validated just before)",
+    ("parse::Grammar::get_specializations", "skip", "!= param<Shell>"): "definitions for other shells do not take part (their shell name and right-hand side were validated just before)",
     ("parse::Grammar::get_specializations", "continue^0", ":None"): "second pass looks at plain definitions only",
     ("parse::Grammar::get_specializations", "skip", "lhs_name)"): "a plain definition matters here only if the same name is specialised for some shell",
-    ("regex::Regex::check_subwords", "skip", "param#5.contains"): "each within-word regex is checked once",
+    ("regex::Regex::check_subwords", "skip", "#3>.contains("): "each within-word regex is checked once",
     ("regex::Regex::check_subwords", "skip", "endmarker_position"): "the end marker is not an input",
-    ("regex::Regex::check_subwords", "skip", "param#4.contains"): "position already visited",
-    ("regex::Regex::check_subwords", "continue^0", "param#2.get("): "position without followers (only the end marker): nothing to descend into",
+    ("regex::Regex::check_subwords", "skip", "#2>.contains(elem[param<RoaringBitmap#1>])"): "position already visited",
+    ("regex::Regex::check_subwords", "continue^0", ".get("): "position without followers (only the end marker): nothing to descend into",
     ("regex::Regex::do_check_ambiguous_inputs_tail_only_subword", "skip", "endmarker_position"): "the end marker is not an input: reaching it after a placeholder is exactly the allowed `last item of the word` case",
-    ("regex::Regex::do_check_ambiguous_inputs_tail_only_subword", "skip", "param#4.contains"): "position already visited on this walk",
-    ("regex::Regex::do_check_ambiguous_inputs_tail_only_subword", "continue^0", "param#2.get("): "position without followers",
+    ("regex::Regex::do_check_ambiguous_inputs_tail_only_subword", "skip", "#2>.contains(elem[param<RoaringBitmap#1>])"): "position already visited on this walk",
+    ("regex::Regex::do_check_ambiguous_inputs_tail_only_subword", "continue^0", ".get("): "position without followers",
     # ---- table printers (C04; bash ones also C01 / C12 / C17)
     ("bash::write_completion_script", "return-ok", "!= elem"): "chunk_by closure: different shape hashes are never grouped (isomorphic_to decides the rest, ISOCOV)",
     ("fish::write_completion_script", "return-ok", "!= elem"): "chunk_by closure: different shape hashes are never grouped (isomorphic_to decides the rest, ISOCOV)",
@@ -46,15 +46,15 @@ WHY = {
     ("zsh::write_literals", "skip", "is_empty()"): "only non-empty descriptions enter the description set",
     ("zsh::write_literals", "skip", "is_empty()"): "defensive: the set holds no empty description",
     # ---- algorithmic cores (C03 / C02)
-    ("dfa::DFA::make_transitions_image", "skip", ".contains(elem[param#0.inputs.ids()])"): "dead-state completion adds a transition only for (state, input) pairs that have none",
+    ("dfa::DFA::make_transitions_image", "skip", ".inputs.ids()])"): "dead-state completion adds a transition only for (state, input) pairs that have none",
     ("dfa::DFA::make_transitions_image", "dedup", "()"): "sorted image: duplicates (none are produced) would be harmless to drop",
     ("dfa::do_minimize", "continue^0", "find_bounds("): "no transition enters the splitter block: it splits nothing",
     ("dfa::do_minimize", "skip", "is_disjoint"): "only blocks that meet the preimage can be split by it",
     ("dfa::do_minimize", "skip", "difference().is_empty()"): "block entirely inside the preimage: not split",
     ("dfa::do_minimize", "break^0", "== elem["): "the splitter block itself was just split: the list of overlapping blocks computed for this symbol is stale for it; the remaining symbols of this splitter are still processed (the break leaves the inner loop only)",
-    ("dfa::eliminate_nonaccepting_states_without_output_transitions", "skip", "param#1.contains"): "keep a transition iff its target is accepting or has a way out",
+    ("dfa::eliminate_nonaccepting_states_without_output_transitions", "skip", "param<RoaringBitmap>.contains(elem[param<[Transition]>"): "keep a transition iff its target is accepting or has a way out",
     ("dfa::find_bounds", "return-ok", "Err(_) => None"): "binary search found no transition into [min, max]: empty window",
-    ("dfa::keep_only_states_with_input_transitions", "skip", "== param#0) ||"): "accepting states kept iff reachable (start state or some transition enters them)",
+    ("dfa::keep_only_states_with_input_transitions", "skip", "== param<StateId>) ||"): "accepting states kept iff reachable (start state or some transition enters them)",
     ("dfa::keep_only_states_with_input_transitions", "skip", "<lit>"): "closure value of the transition filter (the two early returns below decide)",
     ("dfa::keep_only_states_with_input_transitions", "return-ok", "=> true"): "transitions leaving the start state are always kept",
     ("dfa::keep_only_states_with_input_transitions", "return-ok", "=> false"): "a transition whose source or target has no incoming transition is dropped",
